@@ -303,6 +303,14 @@ func c15cases(c *h.Ctx) []fileCase {
 		"variables-null":      "variables: {A: null}\ntasks: {t1: {command: [\"echo {{.A}}\"]}}\n",
 	}
 	text["layered-dag-declared-bottom-up"] = layeredDag(30)
+	// two stages with one name where the stage that holds the name includes a pipeline
+	text["dup-stage/pipeline-included-twice"] = "tasks: {t1: {command: [\"true\"]}}\npipelines:\n  p2: [{task: t1}]\n  p1: [{pipeline: p2}, {pipeline: p2}]\n"
+	text["dup-stage/pipeline-then-task-named-alike"] = "tasks: {t1: {command: [\"true\"]}}\npipelines:\n  p2: [{task: t1}]\n  p1: [{pipeline: p2}, {name: p2, task: t1}]\n"
+	text["dup-stage/explicit-name-first-is-pipeline"] = "tasks: {t1: {command: [\"true\"]}}\npipelines:\n  p2: [{task: t1}]\n  p1: [{name: x, pipeline: p2}, {name: x, task: t1}]\n"
+	text["dup-stage/task-then-pipeline"] = "tasks: {t1: {command: [\"true\"]}}\npipelines:\n  p2: [{task: t1}]\n  p1: [{name: x, task: t1}, {name: x, pipeline: p2}]\n"
+	// directory imports that lead back to a file that is being loaded (also reached through a symlink, below)
+	text["import-own-directory"] = "import: [\".\"]\ntasks: {t1: {command: [\"true\"]}}\n"
+	text["import-directory-whose-file-imports-it"] = "import: [\"inc\"]\ntasks: {t1: {command: [\"true\"]}}\n"
 	// line breaks other than LF (yaml.v2 counts CR, NEL, LS and PS as breaks too) in files that are syntactically
 	// wrong further down: error positions then lie beyond the number of LF-separated lines
 	brk := map[string]string{"cr": "\r", "nel": "\u0085", "ls": "\u2028", "ps": "\u2029"}
@@ -453,6 +461,11 @@ func c15(c *h.Ctx) {
 		for k, v := range fc.aux {
 			h.WriteFile(dir+"/"+k, v)
 		}
+		if fc.name == "text:import-directory-whose-file-imports-it" {
+			os.Remove(dir + "/inc/broken.yaml")
+			os.Remove(dir + "/inc/wrong.yaml")
+			h.WriteFile(dir+"/inc/back.yaml", "import: [\"../inc\", \"..\"]\ntasks: {back: {command: [\"true\"]}}\n")
+		}
 		f := dir + "/f" + fc.ext
 		h.WriteFile(f, fc.content)
 		// `validate` runs without -c: keep the default-config discovery from walking up into foreign directories
@@ -491,6 +504,15 @@ func c15(c *h.Ctx) {
 			run("-c", f, "list", "tasks")
 		} else {
 			c.Count("files_rejected", 1)
+		}
+		if strings.Contains(fc.name, "import") {
+			// the same file reached through a symbolic link to its directory (lexical and resolved names differ)
+			link := dir + ".lnk"
+			if os.Symlink(dir, link) == nil {
+				run("-c", link+"/f"+fc.ext, "list")
+				c.Count("files_loaded_through_a_symlink", 1)
+				os.Remove(link)
+			}
 		}
 		if fc.ext == ".yaml" && (strings.Contains(fc.name, "import") || i%7 == 0) {
 			// the same file found by default-configuration discovery (no -c): a different path through the CLI
